@@ -529,8 +529,12 @@ def run_c14(ctx):
                             note="non-vacuity: stepping only while both crossing parameters are below 1 loses tiles")
     ctx.mc("MergeUp", "MergeUp_%s.cfg" % ctx.tier, timeout=3000, heap="24g",
            note="MergeUp loop with ANY map iteration order = MaxMerge; disjoint, same area, no complete quad left, never above min")
+    ctx.mc("TileFillMC", "TileFillMC_%s.cfg" % ctx.tier, workers=L.NCPU, timeout=3000,
+           note="polygon(): the walk with its ring record, the choice of scan-line intersections and the pairwise fill, transcribed, covers every tile the boundary passes through or that lies inside and none that lies outside, without error, on every closed lattice triangle of a 3x3 window at 4 units per tile (quick: 1 first vertex in 8)")
     shards = ctx.gen("tilecover")
     ctx.validate("TileCover_Trace", shards)
+    # the polygon events once more, exactly: in general position the real cover is the transcription's, tile for tile
+    ctx.validate("TileFill_Trace", shards, stage="TileFill_Trace(polygons, exact)")
     ctx.exhaustive = True
     ctx.notes.append("exhaustive part: segments between points of a 13x13 sub-lattice of 3x3 tiles (every 5th pair quick, all thorough); MergeUp on all 65536 zoom-2 sets x 3 min zooms (thorough)")
 
@@ -538,7 +542,7 @@ def run_c14(ctx):
 PLANS["C14"] = dict(
     run=run_c14, signature=sig_default,
     technique="TLA+ exact Must/May tile sets and sample-point polygon predicate in tile-space lattice units, MergeUp as a state machine with nondeterministic map order checked against MaxMerge; traces of the real tilecover functions validated by TLC",
-    level_text="TLC explores the MergeUp loop with every possible map iteration order for all 65536 zoom-2 tile sets x min in 0..2 (thorough; 384 structured sets quick) and checks result = MaxMerge, disjointness, equal area, no complete sibling quad left and no tile shallower than min. For real covers the harness places lattice paths and star-shaped polygons (with holes) in tile space at zooms 3..22, inverts them to lon/lat, checks with maptile.Fraction that the code sees the lattice point within 1e-6 tile, and records the cover; TLC requires Must <= cover <= May for lines (exact segment/rectangle tests with a 1/64-tile margin, so either choice at an exact corner crossing is accepted), sample-point and boundary tiles in the cover and the cover inside the bounding box for polygons, the tile itself for points, the union for collections, and MergeUp = MaxMerge on every repetition for tile sets at zoom 2 and 4. Also: polygons of up to 8x8 tiles with a small hole somewhere inside (a hole within one tile row), vertices repeated in a row incl. a doubled closing vertex, windows across the equator (the one tile-row edge with an exact latitude: vertices exactly on a row edge), windows starting at tile (0,0) and whole-world windows at zooms 0..2. Model-checked layer for lines: the grid walk of tilecover.line() transcribed in exact arithmetic satisfies Must <= walk <= May for every segment between lattice points of a 3x3 window. Also: multipolygons whose members overlap or nest (the cover is the union), tilecover.Bound on the 1/8192 lattice with corners a hair away from tile edges at zooms to 22, MergeUp on a reused map still holding false-valued keys of another zoom, points at zooms 0..2. Every third polygon cover follows covers that failed (an unclosed ring, alone and as a hole: uneven intersections), and every fourth judged shape is covered once more as a member of a collection (bare ring, polygon, multipolygon, next to points, lines and a nested collection) and compared with the union of the member covers. Values without a vertex (empty, not nil) of every kind are covered at zooms 0..3, alone and as members (nothing to cover); MergeUp also runs on every cover at zooms 0 and 1. Every cover is emptied and scribbled on by the harness once it has been read (a later cover must not show it).",
+    level_text="TLC explores the MergeUp loop with every possible map iteration order for all 65536 zoom-2 tile sets x min in 0..2 (thorough; 384 structured sets quick) and checks result = MaxMerge, disjointness, equal area, no complete sibling quad left and no tile shallower than min. For real covers the harness places lattice paths and star-shaped polygons (with holes) in tile space at zooms 3..22, inverts them to lon/lat, checks with maptile.Fraction that the code sees the lattice point within 1e-6 tile, and records the cover; TLC requires Must <= cover <= May for lines (exact segment/rectangle tests with a 1/64-tile margin, so either choice at an exact corner crossing is accepted), sample-point and boundary tiles in the cover and the cover inside the bounding box for polygons, the tile itself for points, the union for collections, and MergeUp = MaxMerge on every repetition for tile sets at zoom 2 and 4. Also: polygons of up to 8x8 tiles with a small hole somewhere inside (a hole within one tile row), vertices repeated in a row incl. a doubled closing vertex, windows across the equator (the one tile-row edge with an exact latitude: vertices exactly on a row edge), windows starting at tile (0,0) and whole-world windows at zooms 0..2. Model-checked layer for lines: the grid walk of tilecover.line() transcribed in exact arithmetic satisfies Must <= walk <= May for every segment between lattice points of a 3x3 window. Model-checked layer for polygons: polygon() transcribed (walk with its ring record across segments, scan-line intersections that are no local extremum and whose successor lies in another row, sort, fill between pairs) reports no error and covers exactly what it must on every closed lattice triangle of a 3x3 window at 4 units per tile (4.65 million; quick: one first vertex in eight); the real covers of polygons in general position (no vertex on a tile line, no edge within a unit of a tile corner) must equal the transcription's tile for tile. Also: multipolygons whose members overlap or nest (the cover is the union), tilecover.Bound on the 1/8192 lattice with corners a hair away from tile edges at zooms to 22, MergeUp on a reused map still holding false-valued keys of another zoom, points at zooms 0..2. Every third polygon cover follows covers that failed (an unclosed ring, alone and as a hole: uneven intersections), and every fourth judged shape is covered once more as a member of a collection (bare ring, polygon, multipolygon, next to points, lines and a nested collection) and compared with the union of the member covers. Values without a vertex (empty, not nil) of every kind are covered at zooms 0..3, alone and as members (nothing to cover); MergeUp also runs on every cover at zooms 0 and 1. Every cover is emptied and scribbled on by the harness once it has been read (a later cover must not show it).",
     level_note="Zero-length lines are outside the quantifier and accepted with any cover. The inverse mercator is written out in the harness (orb/internal cannot be imported) and guarded by the Fraction round-trip check; cases that miss are dropped, never judged. MergeUpPartial is not specified by the property and not checked. Trusted: TLC, Json module, the inverse projection + Fraction guard.",
     rule="one event = one real tilecover / MergeUp call; non-trivial = cover of more than one tile (lines, polygons) / all point, collection and merge events; distinct = distinct event text",
     assumptions=["edges are straight in tile space (the code interpolates in tile fractions)", "lattice points are reproduced by maptile.Fraction within 1e-6 tile (checked per point)"],
